@@ -26,7 +26,9 @@ def _task(args):
     prop, hname, cfg, opts = args
     try:
         import logging
+        import warnings
         logging.disable(logging.WARNING)
+        warnings.simplefilter("ignore")
         sys.setrecursionlimit(20000)
         from symx.engine import Engine
         mod = load(prop)
